@@ -54,11 +54,11 @@ CHECKS = {
                 ref='DESIGN.md §4 C15',
                 note=E1_NOTE + ' Behavioural independence only (token-level "unchanged" is not claimed); |S| <= 4 in quick.'),
     'C17': dict(engine='E4-mir-smt', technique='MIR -> SMT-LIB (string theory) symbolic execution of the loop-free string-edit kernels; z3 and cvc5; rustc replay of models',
-                text='PARTIAL: claimed only for the mechanism "length-indexed string edits when suggesting the unsafe form" (the three *::panic::union_without_unsafe functions). Their MIR is dumped from the current tree on every run and walked symbolically over one SMT string (the printed attribute); every panic-reaching path and every insert_str precondition must be unsat in both solvers under a stated over-approximation of what the attribute can print as. The rest of C17 (arbitrary token mutations, unwraps, stack depth, termination) is outside reach and not claimed.',
+                text='PARTIAL: claimed only for the mechanism "length-indexed string edits when suggesting the unsafe form" (the three *::panic::union_without_unsafe functions). Their MIR is dumped from the current tree on every run and walked symbolically over one SMT string (the printed attribute); every panic-reaching path and every insert_str precondition must be unsat in both solvers under a stated over-approximation of what the attribute can print as. The rest of C17 (arbitrary token mutations, unwraps, stack depth, termination) is outside reach and not claimed; an auxiliary, non-deciding smoke runs ~310 malformed derive inputs through the real macro in-process and reports a panic as found by execution.',
                 ref='DESIGN.md §3.4, §4 C17', category='model_checking',
                 note='Partial claim (see text). Trusted base: rustc nightly MIR (-Zunpretty=mir), the call whitelist and the environment assumption in vk/e4.py (ASCII, attribute text <= 48 bytes), z3 4.8.12 and cvc5 1.0 (both must agree); every model is confirmed by compiling the attribute with the real proc macro.'),
     'C18': dict(engine='E3-cfg-sat', technique='SAT (z3, cvc5 cross-check) over the cfg(feature) structure extracted from the sources, all 4096 subsets symbolic, models replayed with cargo check; Kani/CBMC on a stated list of subsets for behaviour',
-                text='tools/cfgscan extracts the module tree, definitions, use leaves and every path with its cfg stack from the current sources; z3 decides for every (reference, target), every cfg-gated let, every Trait variant / lookup arm / dispatch gate, the compile_error! guard, every binding / import / private item (unused-variable, unused-mut, unused-import, dead-code lints) and every diagnostic of the shared entry point (a rejection must not exist only under some subsets) that no feature subset compiles a reference without its target (the subset is the SAT variable); each model is confirmed by a real cargo check -D warnings of that subset, or for a rejection by building the same derive input under that subset and under all features. Behavioural equality with the full build is discharged by the E1 harnesses of the enabled traits under 5 (quick) / ~33 (thorough) stated subsets.',
+                text='tools/cfgscan extracts the module tree, definitions, use leaves and every path with its cfg stack from the current sources; z3 decides for every (reference, target), every cfg-gated let, every Trait variant / lookup arm / dispatch gate, the compile_error! guard, every binding / import / private item (unused-variable, unused-mut, unused-import, dead-code lints) and every diagnostic of the shared entry point (a rejection must not exist only under some subsets) that no feature subset compiles a reference without its target (the subset is the SAT variable); for every statement compiled only under cfg(feature = X) its residual when Trait::X cannot be requested must equal the not(X) statement next to it (partner gates: the enabled traits generate the same code without X), a model being replayed by expanding the E2 corpus with the real macro built with that subset and with all features; each model is confirmed by a real cargo check -D warnings of that subset, or for a rejection by building the same derive input under that subset and under all features. Behavioural equality with the full build is discharged by the E1 harnesses of the enabled traits under 5 (quick) / ~33 (thorough) stated subsets.',
                 ref='DESIGN.md §3.3, §4 C18', category='model_checking',
                 note='Trusted base: the reference model of the crate built by tools/cfgscan (names it cannot see are unconstrained: a miss, never an alarm), z3/cvc5, cargo check for confirmation and for a validation sample of subsets on each run; the behavioural half covers the stated subsets only.'),
     'C19': dict(engine='E1-kani', technique='bounded model checking (Kani/CBMC, CaDiCaL) of the C02..C10 harnesses re-instantiated in hostile naming contexts',
